@@ -257,8 +257,8 @@ func runOwn(r *lib.Rng) {
 	c.Auth.NTSKEFetcher.TLSConfig = tls.Config{NextProtos: []string{"ntske/1"}, InsecureSkipVerify: true, ServerName: addrC.String(), MinVersion: tls.VersionTLS13}
 	c.Auth.NTSKEFetcher.Port = strconv.Itoa(ntske.ServerPortIP)
 	measured := 0
-	for try := 0; try < 3 && measured == 0; try++ {
-		ctx, cancel := context.WithTimeout(context.Background(), 10*time.Second)
+	for try := 0; try < 2 && measured == 0; try++ {
+		ctx, cancel := context.WithTimeout(context.Background(), 6*time.Second)
 		_, off, err := client.MeasureClockOffsetIP(ctx, log, c, &net.UDPAddr{IP: addrC.To4()}, &net.UDPAddr{IP: addrB.To4(), Port: 9})
 		cancel()
 		if err == nil && off > -time.Second && off < time.Second {
